@@ -38,6 +38,9 @@ Proof.
   - destruct (bytes_eqb a b) eqn:E; [apply bytes_eqb_eq in E; contradiction | reflexivity].
 Qed.
 
+Lemma Zlen_snoc : forall A (l : list A) x, Zlen (l ++ [x]) = Zlen l + 1.
+Proof. intros. rewrite Zlen_app. reflexivity. Qed.
+
 Lemma set_nth_length : forall A n (l : list A) x, length (set_nth n l x) = length l.
 Proof. induction n; destruct l; simpl; intros; auto. Qed.
 
@@ -163,9 +166,12 @@ Qed.
 
 (* ================================================================== *)
 (** * Part 2: the hash-bucket name table, for every hash function with range below the size *)
+(* a table size: a positive C int *)
+Definition hs_ok (hs : Z) : Prop := 0 < hs <= NC_MAX_INT.
+
 Section Tables.
 Variable hashf : list byte -> Z -> Z.
-Hypothesis hash_range : forall nm hs, 0 < hs -> 0 <= hashf nm hs < hs.
+Hypothesis hash_range : forall nm hs, hs_ok hs -> 0 <= hashf nm hs < hs.
 
 Definition key (nm : list byte) (hs : Z) : nat := Z.to_nat (hashf nm hs).
 
@@ -177,16 +183,16 @@ Definition bs_inv (names : list (list byte)) (hs : Z) (bs : list (list nat)) : P
 
 (* nameT may be NULL only while nothing is defined *)
 Definition tab_inv (names : list (list byte)) (t : ntab) : Prop :=
-  0 < nt_hsize t /\
+  hs_ok (nt_hsize t) /\
   match nt_tab t with
   | None => names = []
   | Some bs => bs_inv names (nt_hsize t) bs
   end.
 
-Lemma key_lt : forall nm hs, 0 < hs -> (key nm hs < Z.to_nat hs)%nat.
-Proof. intros nm hs H. unfold key. pose proof (hash_range nm hs H). lia. Qed.
+Lemma key_lt : forall nm hs, hs_ok hs -> (key nm hs < Z.to_nat hs)%nat.
+Proof. intros nm hs H. unfold key. pose proof (hash_range nm hs H). unfold hs_ok in H. lia. Qed.
 
-Lemma bucket_ok : forall bs nm hs, 0 < hs -> length bs = Z.to_nat hs ->
+Lemma bucket_ok : forall bs nm hs, hs_ok hs -> length bs = Z.to_nat hs ->
   exists ids, nth_error bs (key nm hs) = Some ids /\ bucket hashf bs nm hs = Some (key nm hs, ids).
 Proof.
   intros bs nm hs Hhs Hlen. unfold bucket.
@@ -326,7 +332,7 @@ Qed.
 (* ---------- removing an id from its bucket, then appending it to the bucket of a new name ---------- *)
 (* core of ncmpio_update_name_lookup_table and ncmpio_hash_replace *)
 Lemma rename_buckets_inv : forall names hs bs i old new ids ids',
-  0 < hs -> bs_inv names hs bs -> nth_error names i = Some old ->
+  hs_ok hs -> bs_inv names hs bs -> nth_error names i = Some old ->
   nth_error bs (key old hs) = Some ids -> remove_id i ids = Some ids' ->
   exists ids2, nth_error (set_nth (key old hs) bs ids') (key new hs) = Some ids2 /\
     bs_inv (set_nth i names new) hs
@@ -522,7 +528,7 @@ Proof.
     exists t'. rewrite <- app_assoc in Hinv'. simpl in Hinv'. split; [assumption|]. split; [assumption|]. congruence.
 Qed.
 
-Theorem hash_populate_inv : forall hs names, 0 < hs ->
+Theorem hash_populate_inv : forall hs names, hs_ok hs ->
   exists t, hash_populate hashf hs names = Some t /\ tab_inv names t /\ nt_hsize t = hs.
 Proof.
   intros hs names Hhs. unfold hash_populate. destruct names as [|n0 names'].
@@ -588,7 +594,7 @@ Qed.
 Section Refine.
 Variable hashf : list byte -> Z -> Z.
 Variable nfc : list byte -> list byte.
-Hypothesis hash_range : forall nm hs, 0 < hs -> 0 <= hashf nm hs < hs.
+Hypothesis hash_range : forall nm hs, hs_ok hs -> 0 <= hashf nm hs < hs.
 
 Notation tinv := (tab_inv hashf).
 
@@ -688,7 +694,7 @@ Definition meta_inv (hs : Z) (m : cmeta) : Prop :=
 (* table_inv of a file: every name table (dims, vars, global attributes, attributes of each variable)
    of the current header and of the copy kept since redef *)
 Definition file_inv (f : cfile) : Prop :=
-  0 < cf_hs_vattr f /\ meta_inv (cf_hs_vattr f) (cf_meta f) /\
+  hs_ok (cf_hs_vattr f) /\ meta_inv (cf_hs_vattr f) (cf_meta f) /\
   match cf_old f with Some o => meta_inv (cf_hs_vattr f) o | None => True end.
 
 Definition fref (cr : cres) (sr : sres) : Prop :=
@@ -1194,19 +1200,25 @@ Definition hdr_nodup (h : hdr) : Prop :=
   NoDup (map d_name (h_dims h)) /\ NoDup (map v_name (h_vars h)) /\ NoDup (map a_name (h_gatts h)) /\
   Forall (fun v => NoDup (map a_name (v_atts v))) (h_vars h).
 
-Definition hcfg_pos (c : hcfg) : Prop := 0 < hc_dim c /\ 0 < hc_var c /\ 0 < hc_gatt c /\ 0 < hc_vatt c.
+Definition hcfg_pos (c : hcfg) : Prop := hs_ok (hc_dim c) /\ hs_ok (hc_var c) /\ hs_ok (hc_gatt c) /\ hs_ok (hc_vatt c).
 
-Lemma hint_size_pos : forall g d, 0 < d -> 0 < hint_size g d.
-Proof. intros g d H. unfold hint_size. destruct g as [v|]; [|assumption]. destruct (v <=? 0) eqn:E; lia. Qed.
+Definition hint_ok (g : option Z) : Prop := match g with Some v => v <= NC_MAX_INT | None => True end.
 
-(* with the repaired hint code (size <= 0 falls back to the default) every table size is positive *)
-Lemma hcfg_of_pos : forall a b c d, hcfg_pos (hcfg_of a b c d).
+Lemma hint_size_pos : forall g d, hs_ok d -> hint_ok g -> hs_ok (hint_size g d).
 Proof.
-  intros. unfold hcfg_pos, hcfg_of. simpl.
-  repeat split; apply hint_size_pos; reflexivity.
+  intros g d H Hg. unfold hint_size. destruct g as [v|]; [|assumption]. simpl in Hg.
+  destruct (v <=? 0) eqn:E; [assumption|]. unfold hs_ok. lia.
 Qed.
 
-Lemma open_cattrs_ok : forall hs l, 0 < hs -> NoDup (map a_name l) ->
+(* with the repaired hint code (size <= 0 falls back to the default) every table size is positive *)
+Lemma hcfg_of_pos : forall a b c d, hint_ok a -> hint_ok b -> hint_ok c -> hint_ok d ->
+  hcfg_pos (hcfg_of a b c d).
+Proof.
+  intros. unfold hcfg_pos, hcfg_of. simpl.
+  split; [|split; [|split]]; apply hint_size_pos; try assumption; unfold hs_ok; cbv; split; congruence.
+Qed.
+
+Lemma open_cattrs_ok : forall hs l, hs_ok hs -> NoDup (map a_name l) ->
   exists ca, open_cattrs hashf hs l = Some ca /\ ca_vals ca = l /\ ca_inv ca /\ nt_hsize (ca_tab ca) = hs.
 Proof.
   intros hs l Hhs Hnd. unfold open_cattrs.
@@ -1214,7 +1226,7 @@ Proof.
   eexists. split; [reflexivity|]. split; [reflexivity|]. split; [|assumption]. split; assumption.
 Qed.
 
-Lemma open_vars_ok : forall hs vs, 0 < hs -> Forall (fun v => NoDup (map a_name (v_atts v))) vs ->
+Lemma open_vars_ok : forall hs vs, hs_ok hs -> Forall (fun v => NoDup (map a_name (v_atts v))) vs ->
   exists cvs, open_vars hashf hs vs = Some cvs /\ map abs_var cvs = map norm_var vs /\
               map cv_name cvs = map v_name vs /\ Forall (cv_inv hs) cvs.
 Proof.
@@ -1250,7 +1262,7 @@ Proof.
   intros fmt c (Hd & Hv & Hg & Ha). split; [|reflexivity].
   split; [assumption|]. simpl. split; [|exact I].
   unfold meta_inv, dnames, vnames, ca_inv, ca_names, tab_inv. simpl.
-  repeat split; try assumption; constructor.
+  repeat match goal with |- _ /\ _ => split end; try assumption; try reflexivity; constructor.
 Qed.
 
 (* names of a file that satisfies the invariant are pairwise distinct (per table) *)
@@ -1493,6 +1505,8 @@ Qed.
 (* ---------- arguments that fit their C types ---------- *)
 Definition op_repr (o : op) : Prop :=
   match o with
+  | OCreate _ _ a b c d => hint_ok a /\ hint_ok b /\ hint_ok c /\ hint_ok d
+  | OOpen _ _ a b c d => hint_ok a /\ hint_ok b /\ hint_ok c /\ hint_ok d
   | ODefDim _ _ size => size <= NC_MAX_INT64
   | ODefVar _ _ _ dimids => Zlen dimids <= NC_MAX_INT
   | OPutAtt _ _ _ _ vals => Zlen vals <= NC_MAX_INT
@@ -1557,9 +1571,6 @@ Proof. intros until nm. unfold rename_var_pre. intro H. pre_split H. Qed.
 
 Lemma nfc_ok : forall nm, name_pre nm = NC_NOERR -> Zlen (nfc nm) <= NC_MAX_INT.
 Proof. intros nm H. apply nfc_len, name_pre_len. assumption. Qed.
-
-Lemma Zlen_snoc : forall A (l : list A) x, Zlen (l ++ [x]) = Zlen l + 1.
-Proof. intros. rewrite Zlen_app. reflexivity. Qed.
 
 (* ---------- every operation of the linear model keeps the header representable ---------- *)
 Notation shdr r := (sf_hdr (fst (fst r))).
@@ -1721,3 +1732,841 @@ Proof.
 Qed.
 
 End WellFormed.
+
+(* ================================================================== *)
+(** * Part 4: worlds (file slots with their disk image) and histories *)
+
+(* write discipline of the linear model: a step either rewrites the header on disk, or happens in
+   define mode, or leaves header and mode alone *)
+Definition sdisc (sf sf' : sfile) (w : bool) : Prop :=
+  w = true \/
+  (sf_indef sf' = true /\ (sf_indef sf = true \/ sf_hdr sf' = sf_hdr sf)) \/
+  (sf_hdr sf' = sf_hdr sf /\ sf_indef sf' = sf_indef sf).
+
+Notation sdisc_of f r := (sdisc f (fst (fst r)) (snd r)).
+
+Lemma sdisc_same : forall f (o : list Z), sdisc_of f (sret f o).
+Proof. intros. right. right. auto. Qed.
+
+Lemma sdisc_upd : forall f h (o : list Z), sdisc_of f (set_hdr f h, o, negb (sf_indef f)).
+Proof.
+  intros. unfold sdisc. simpl. destruct (sf_indef f); simpl; auto.
+Qed.
+
+Section WorldSteps.
+Variable nfc : list byte -> list byte.
+
+Lemma def_dim_pre_indef : forall fmt indef dims nm size, def_dim_pre fmt indef dims nm size = NC_NOERR -> indef = true.
+Proof. intros until size. unfold def_dim_pre. destruct indef; [reflexivity|]. simpl. discriminate. Qed.
+
+Lemma def_var_pre_indef : forall fmt indef nv nm t, def_var_pre fmt indef nv nm t = NC_NOERR -> indef = true.
+Proof. intros until t. unfold def_var_pre. destruct indef; [reflexivity|]. simpl. discriminate. Qed.
+
+Lemma del_att_pre_indef : forall rd indef nv v nm, del_att_pre rd indef nv v nm = NC_NOERR -> indef = true.
+Proof.
+  intros until nm. unfold del_att_pre. destruct rd; [discriminate|]. destruct indef; [reflexivity|]. simpl. discriminate.
+Qed.
+
+Lemma sdisc_def : forall f h (o : list Z), sf_indef f = true -> sdisc_of f (sret (set_hdr f h) o).
+Proof. intros. right. left. simpl. auto. Qed.
+
+Lemma s_def_dim_disc : forall f nm size, sdisc_of f (s_def_dim nfc f nm size).
+Proof.
+  intros. unfold s_def_dim.
+  destruct (negb (def_dim_pre _ _ _ nm size =? NC_NOERR)) eqn:E; [apply sdisc_same|].
+  apply negb_eqb_false, def_dim_pre_indef in E.
+  destruct (find_name _ _); [apply sdisc_same | apply sdisc_def; assumption].
+Qed.
+
+Lemma s_def_var_disc : forall f nm t dimids, sdisc_of f (s_def_var nfc f nm t dimids).
+Proof.
+  intros. unfold s_def_var.
+  destruct (negb (def_var_pre _ _ _ nm t =? NC_NOERR)) eqn:E; [apply sdisc_same|].
+  apply negb_eqb_false, def_var_pre_indef in E.
+  destruct (find_name _ _); [apply sdisc_same|].
+  destruct (negb (def_var_post _ t dimids =? NC_NOERR)); [apply sdisc_same | apply sdisc_def; assumption].
+Qed.
+
+Lemma s_put_att_disc : forall f v nm t vals, sdisc_of f (s_put_att nfc f v nm t vals).
+Proof.
+  intros. unfold s_put_att.
+  destruct (negb (put_att_pre _ _ _ v nm t _ =? NC_NOERR)); [apply sdisc_same|].
+  destruct (negb (fillvalue_rule _ _ _ _ _ _ =? NC_NOERR)); [apply sdisc_same|].
+  destruct (get_sa _ _); [|apply sdisc_same].
+  destruct (att_put_value t vals). destruct (s_attr_put _ _ _ _ _ _) as [l' rc].
+  destruct (negb (rc =? NC_NOERR)); [apply sdisc_same | apply sdisc_upd].
+Qed.
+
+Lemma s_del_att_disc : forall f v nm, sdisc_of f (s_del_att nfc f v nm).
+Proof.
+  intros. unfold s_del_att.
+  destruct (negb (del_att_pre _ _ _ v nm =? NC_NOERR)) eqn:E; [apply sdisc_same|].
+  apply negb_eqb_false, del_att_pre_indef in E.
+  destruct (get_sa _ _); [|apply sdisc_same].
+  destruct (s_attr_del _ _) as [l' rc].
+  destruct (negb (rc =? NC_NOERR)); [apply sdisc_same | apply sdisc_def; assumption].
+Qed.
+
+Lemma s_rename_att_disc : forall f v nm nnm, sdisc_of f (s_rename_att nfc f v nm nnm).
+Proof.
+  intros. unfold s_rename_att.
+  destruct (negb (rename_att_pre _ _ _ nm nnm =? NC_NOERR)); [apply sdisc_same|].
+  destruct (get_sa _ _); [|apply sdisc_same].
+  destruct (s_attr_rename _ _ _ _) as [l' rc].
+  destruct (negb (rc =? NC_NOERR)); [apply sdisc_same | apply sdisc_upd].
+Qed.
+
+Lemma s_rename_dim_disc : forall f id nm, sdisc_of f (s_rename_dim nfc f id nm).
+Proof.
+  intros. unfold s_rename_dim.
+  destruct (negb (rename_dim_pre _ _ id nm =? NC_NOERR)); [apply sdisc_same|].
+  destruct (find_name _ _) as [j|]. { destruct (Nat.eqb j (Z.to_nat id)); apply sdisc_same. }
+  destruct (negb (sf_indef f) && _); [apply sdisc_same | apply sdisc_upd].
+Qed.
+
+Lemma s_rename_var_disc : forall f id nm, sdisc_of f (s_rename_var nfc f id nm).
+Proof.
+  intros. unfold s_rename_var.
+  destruct (negb (rename_var_pre _ _ id nm =? NC_NOERR)); [apply sdisc_same|].
+  destruct (find_name _ _) as [j|]; [apply sdisc_same|].
+  destruct (negb (sf_indef f) && _); [apply sdisc_same | apply sdisc_upd].
+Qed.
+
+Lemma s_copy_write_disc : forall f v nm a self, sdisc_of f (s_copy_write nfc f v nm a self).
+Proof.
+  intros. unfold s_copy_write.
+  destruct (get_sa _ _); [|apply sdisc_same]. destruct self; [apply sdisc_same|].
+  destruct (s_attr_put _ _ _ _ _ _) as [l' rc].
+  destruct (negb (rc =? NC_NOERR)); [apply sdisc_same | apply sdisc_upd].
+Qed.
+
+Lemma s_redef_disc : forall f, sdisc_of f (s_redef f).
+Proof.
+  intros. unfold s_redef. destruct (sf_rdonly f); [apply sdisc_same|].
+  destruct (sf_indef f); [apply sdisc_same|]. right. left. simpl. auto.
+Qed.
+
+Lemma s_enddef_disc : forall f bl, sdisc_of f (s_enddef f bl).
+Proof.
+  intros. unfold s_enddef. destruct (negb (sf_indef f)); [apply sdisc_same|].
+  destruct (negb (check_vlens _ =? NC_NOERR)); [apply sdisc_same|]. left. reflexivity.
+Qed.
+
+End WorldSteps.
+
+Section Histories.
+Variable hashf : list byte -> Z -> Z.
+Variable nfc : list byte -> list byte.
+Hypothesis hash_range : forall nm hs, hs_ok hs -> 0 <= hashf nm hs < hs.
+Hypothesis nfc_len : forall nm, Zlen nm <= NC_MAX_NAME -> Zlen (nfc nm) <= NC_MAX_INT.
+
+Notation finv := (file_inv hashf).
+
+Definition good_hdr (h : hdr) : Prop := hdr_ok h /\ hdr_nodup h.
+
+(* a file on disk: absent, just created (empty), or starting with the encoding of a good header *)
+Definition disk_ok (d : option (list byte)) : Prop :=
+  d = None \/ d = Some [] \/
+  exists h rest, good_hdr h /\ d = Some (encode_header h ++ rest).
+
+(* invariant of a slot; the last clause is "a data-mode file has its current header on disk" *)
+Definition slot_inv (sl : cslot) : Prop :=
+  match cs_file sl with
+  | None => disk_ok (cs_disk sl)
+  | Some f => finv f /\ hdr_ok (cf_hdr f) /\
+              (if cf_indef f then disk_ok (cs_disk sl)
+               else exists rest, cs_disk sl = Some (encode_header (cf_hdr f) ++ rest))
+  end.
+
+Definition world_inv (w : cworld) : Prop := Forall slot_inv w.
+
+Lemma slot_get_abs : forall w s, slot_get (abs_world w) s = option_map abs_slot (slot_get w s).
+Proof.
+  intros w s. unfold slot_get, abs_world. destruct (s <? 0); [reflexivity|].
+  rewrite nth_error_map. reflexivity.
+Qed.
+
+Lemma slot_get_inv : forall w s sl, world_inv w -> slot_get w s = Some sl -> slot_inv sl.
+Proof.
+  intros w s sl Hw H. unfold slot_get in H. destruct (s <? 0); [discriminate|].
+  eapply Forall_nth_error; eauto.
+Qed.
+
+Lemma abs_world_set : forall w i sl, abs_world (set_nth i w sl) = set_nth i (abs_world w) (abs_slot sl).
+Proof. intros. unfold abs_world. apply map_set_nth. Qed.
+
+Lemma world_inv_set : forall w i sl, world_inv w -> slot_inv sl -> world_inv (set_nth i w sl).
+Proof. intros. apply Forall_set_nth; assumption. Qed.
+
+Definition good_step (f : cfile) (gc : cfile -> cres) (gs : sfile -> sres) : Prop :=
+  fref hashf (gc f) (gs (abs_file f)) /\
+  hdr_ok (sf_hdr (fst (fst (gs (abs_file f))))) /\
+  sdisc (abs_file f) (fst (fst (gs (abs_file f)))) (snd (gs (abs_file f))).
+
+Lemma disk_after : forall f f' (disk : option (list byte)) wrote,
+  finv f' -> hdr_ok (cf_hdr f') ->
+  sdisc (abs_file f) (abs_file f') wrote ->
+  (if cf_indef f then disk_ok disk else exists rest, disk = Some (encode_header (cf_hdr f) ++ rest)) ->
+  hdr_ok (cf_hdr f) -> finv f ->
+  (if cf_indef f' then disk_ok (if wrote then wr_hdr disk (cf_hdr f') else disk)
+   else exists rest, (if wrote then wr_hdr disk (cf_hdr f') else disk) = Some (encode_header (cf_hdr f') ++ rest)).
+Proof.
+  intros f f' disk wrote Hi' Hok' Hd Hdisk Hok Hi.
+  assert (Hg' : good_hdr (cf_hdr f')) by (split; [assumption | apply (file_inv_nodup hashf); assumption]).
+  assert (Hg : good_hdr (cf_hdr f)) by (split; [assumption | apply (file_inv_nodup hashf); assumption]).
+  unfold sdisc in Hd. simpl in Hd.
+  destruct wrote.
+  - unfold wr_hdr. destruct (cf_indef f'); [right; right|]; eauto.
+  - destruct Hd as [Hd|[[Hd1 Hd2]|[Hd1 Hd2]]]; [discriminate| |].
+    + rewrite Hd1. destruct Hd2 as [Hd2|Hd2].
+      * rewrite Hd2 in Hdisk. assumption.
+      * destruct (cf_indef f); [assumption|]. destruct Hdisk as [rest Hr].
+        right. right. exists (cf_hdr f'), rest. rewrite Hd2. auto.
+    + rewrite Hd2, Hd1. assumption.
+Qed.
+
+Lemma on_file_step : forall w s gc gs, world_inv w ->
+  (forall sl f, slot_get w s = Some sl -> cs_file sl = Some f -> finv f -> hdr_ok (cf_hdr f) -> good_step f gc gs) ->
+  exists w' ob, c_on_file w s gc = Some (w', ob) /\
+                s_on_file (abs_world w) s gs = (abs_world w', ob) /\ world_inv w'.
+Proof.
+  intros w s gc gs Hw Hg. unfold c_on_file, s_on_file. rewrite slot_get_abs.
+  destruct (slot_get w s) as [sl|] eqn:Hs; simpl; [|eauto].
+  pose proof (slot_get_inv _ _ _ Hw Hs) as Hsl. unfold slot_inv in Hsl.
+  destruct (cs_file sl) as [f|] eqn:Hf; simpl; [|eauto].
+  destruct Hsl as (Hfi & Hok & Hdisk).
+  destruct (Hg sl f eq_refl Hf Hfi Hok) as ((f' & o & wr & Hc & Hsp & Hfi') & Hok' & Hdisc).
+  rewrite Hc, Hsp. rewrite Hsp in Hok', Hdisc. simpl in Hok', Hdisc.
+  eexists _, _. split; [reflexivity|]. split.
+  - rewrite abs_world_set. reflexivity.
+  - apply world_inv_set; [assumption|]. unfold slot_inv. simpl.
+    split; [assumption|]. split; [assumption|].
+    eapply disk_after; eauto.
+Qed.
+
+(* ---------- facts about the encoder / decoder used at open and close ---------- *)
+Lemma put_var_norm : forall fmt dims v, put_var fmt dims (norm_var v) = put_var fmt dims v.
+Proof. intros. destruct v. reflexivity. Qed.
+
+Lemma flat_map_put_var_norm : forall fmt dims l,
+  flat_map (put_var fmt dims) (map norm_var l) = flat_map (put_var fmt dims) l.
+Proof.
+  induction l as [|x l IH]; [reflexivity|]. cbn [map flat_map]. rewrite put_var_norm, IH. reflexivity.
+Qed.
+
+Lemma encode_norm : forall h, encode_header (norm_hdr h) = encode_header h.
+Proof.
+  intros [fmt nr dims gatts vars]. unfold encode_header, norm_hdr.
+  cbn [h_format h_numrecs h_dims h_gatts h_vars]. do 4 f_equal.
+  unfold put_list. destruct vars as [|v vars]; [reflexivity|].
+  rewrite flat_map_put_var_norm, Zlen_map. reflexivity.
+Qed.
+
+Lemma hdr_nodup_norm : forall h, hdr_nodup h -> hdr_nodup (norm_hdr h).
+Proof.
+  intros h (H1 & H2 & H3 & H4). unfold hdr_nodup, norm_hdr. simpl.
+  rewrite map_map. split; [assumption|]. split; [exact H2|]. split; [assumption|].
+  rewrite Forall_map. exact H4.
+Qed.
+
+Lemma check_vlens_novars : forall h, h_vars h = [] -> check_vlens h = NC_NOERR.
+Proof. intros h H. unfold check_vlens. rewrite H. reflexivity. Qed.
+
+Lemma decode_good : forall h rest, good_hdr h ->
+  exists dc, decode (encode_header h ++ rest) = Some dc /\ dc_hdr dc = norm_hdr h.
+Proof.
+  intros h rest [Hok _]. exists (decoded_of h). split; [|reflexivity].
+  apply decode_encode_full. apply hdr_ok_wf. assumption.
+Qed.
+
+Lemma trunc_good : forall h rest, hdr_ok h ->
+  zfirstn (hdr_len h) (encode_header h ++ rest) = encode_header h ++ [].
+Proof.
+  intros h rest Hok. rewrite (hdr_len_encode h (hdr_ok_wf h Hok)), zfirstn_app_exact, app_nil_r. reflexivity.
+Qed.
+
+Lemma close_trunc_ok : forall rd h rest, good_hdr h ->
+  exists rest', close_trunc rd h (Some (encode_header h ++ rest)) = Some (encode_header h ++ rest').
+Proof.
+  intros rd h rest [Hok _]. unfold close_trunc.
+  destruct (negb rd && (Zlen (h_vars h) =? 0)); cbn [option_map]; [|eauto].
+  rewrite trunc_good by assumption. eauto.
+Qed.
+
+(* ---------- the per-file steps are good steps ---------- *)
+Ltac gstep Href Hok Hdisc := split; [apply Href; assumption | split; [apply Hok; assumption | apply Hdisc]].
+
+Lemma step_create : forall w s fmt c, world_inv w -> hcfg_pos c ->
+  exists w' ob, c_create w s fmt c = Some (w', ob) /\ s_create (abs_world w) s fmt = (abs_world w', ob) /\
+                world_inv w'.
+Proof.
+  intros w s fmt c Hw Hc. unfold c_create, s_create. rewrite slot_get_abs.
+  destruct (slot_get w s) as [sl|] eqn:Hs; simpl; [|eauto].
+  destruct (cs_file sl) as [f|] eqn:Hf; simpl; [eauto|].
+  destruct (negb (fmt_valid fmt)) eqn:Efmt; [eauto|]. apply negb_false_iff in Efmt.
+  destruct (c_create_file_ok hashf fmt c Hc) as [Hfi Habs].
+  eexists _, _. split; [reflexivity|]. split.
+  - rewrite abs_world_set. unfold abs_slot. simpl. rewrite Habs. reflexivity.
+  - apply world_inv_set; [assumption|]. unfold slot_inv. simpl. split; [assumption|]. split.
+    + unfold hdr_ok. simpl. unfold Zlen, NC_MAX_INT. simpl. repeat split; try assumption; try lia; constructor.
+    + right. left. reflexivity.
+Qed.
+
+Lemma step_open : forall w s mode c, world_inv w -> hcfg_pos c ->
+  exists w' ob, c_open hashf w s mode c = Some (w', ob) /\ s_open (abs_world w) s mode = (abs_world w', ob) /\
+                world_inv w'.
+Proof.
+  intros w s mode c Hw Hc. unfold c_open, s_open. rewrite slot_get_abs.
+  destruct (slot_get w s) as [sl|] eqn:Hs; simpl; [|eauto].
+  pose proof (slot_get_inv _ _ _ Hw Hs) as Hsl. unfold slot_inv in Hsl.
+  destruct (cs_file sl) as [f|] eqn:Hf; simpl; [eauto|].
+  destruct Hsl as [Hd|[Hd|(h & rest & Hg & Hd)]]; rewrite Hd; [eauto | simpl; eauto |].
+  destruct (decode_good h rest Hg) as (dc & Hdec & Hdc). rewrite Hdec, Hdc.
+  destruct Hg as [Hok Hnd].
+  destruct (c_open_file_ok hashf hash_range (norm_hdr h) (mode =? 0) c Hc (hdr_nodup_norm _ Hnd))
+    as (f & Ho & Hfi & Habs).
+  rewrite Ho. eexists _, _. split; [reflexivity|]. split.
+  - rewrite abs_world_set. unfold abs_slot. simpl. rewrite Habs. reflexivity.
+  - apply world_inv_set; [assumption|]. unfold slot_inv. cbn [cs_file cs_disk]. split; [assumption|].
+    assert (Hh : cf_hdr f = norm_hdr (norm_hdr h)).
+    { change (cf_hdr f) with (sf_hdr (abs_file f)). rewrite Habs. reflexivity. }
+    assert (Hin : cf_indef f = false).
+    { change (cf_indef f) with (sf_indef (abs_file f)). rewrite Habs. reflexivity. }
+    rewrite Hh, Hin. split; [apply norm_hdr_ok, norm_hdr_ok; assumption|].
+    exists rest. rewrite !encode_norm. reflexivity.
+Qed.
+
+Lemma step_close : forall w s bl, world_inv w -> Forall (fun b => 0 <= b < 4294967296) bl ->
+  exists w' ob, c_close w s bl = Some (w', ob) /\ s_close (abs_world w) s bl = (abs_world w', ob) /\
+                world_inv w'.
+Proof.
+  intros w s bl Hw Hbl. unfold c_close, s_close. rewrite slot_get_abs.
+  destruct (slot_get w s) as [sl|] eqn:Hs; simpl; [|eauto].
+  pose proof (slot_get_inv _ _ _ Hw Hs) as Hsl. unfold slot_inv in Hsl.
+  destruct (cs_file sl) as [f|] eqn:Hf; simpl; [|eauto].
+  destruct Hsl as (Hfi & Hok & Hdisk).
+  change (sf_indef (abs_file f)) with (cf_indef f).
+  destruct (cf_indef f) eqn:Hin.
+  - destruct (c_enddef_ref hashf f bl Hfi) as (f' & o & wr & Hc & Hsp & Hfi').
+    rewrite Hc, Hsp.
+    assert (Hok' : hdr_ok (cf_hdr f')).
+    { pose proof (s_enddef_ok (abs_file f) bl Hok Hbl) as H. rewrite Hsp in H. exact H. }
+    pose proof (s_enddef_disc (abs_file f) bl) as Hdisc. rewrite Hsp in Hdisc. simpl in Hdisc.
+    eexists _, _. split; [reflexivity|]. split.
+    + rewrite abs_world_set. reflexivity.
+    + apply world_inv_set; [assumption|]. unfold slot_inv. cbn [cs_file cs_disk].
+      assert (Hg' : good_hdr (cf_hdr f')) by (split; [assumption | apply (file_inv_nodup hashf); assumption]).
+      destruct wr.
+      * unfold wr_hdr. destruct (close_trunc_ok (cf_rdonly f') (cf_hdr f')
+            (zskipn (Zlen (encode_header (cf_hdr f'))) match cs_disk sl with Some d => d | None => [] end) Hg')
+          as [rest' Hr].
+        rewrite Hr. right. right. eauto.
+      * (* enddef refused: nothing written; then the file has variables and is not truncated *)
+        unfold c_enddef in Hc. rewrite Hin in Hc. simpl in Hc.
+        destruct (negb (check_vlens (cf_hdr f) =? NC_NOERR)) eqn:Ev; [|discriminate].
+        inversion Hc; subst f'. unfold close_trunc.
+        destruct (negb (cf_rdonly f) && (Zlen (h_vars (cf_hdr f)) =? 0)) eqn:Et; [|assumption].
+        exfalso. apply andb_true_iff in Et. destruct Et as [_ Et].
+        rewrite check_vlens_novars in Ev; [discriminate|].
+        apply Zlen_zero_nil. lia.
+  - destruct Hdisk as [rest Hr]. eexists _, _. split; [reflexivity|]. split.
+    + rewrite abs_world_set. reflexivity.
+    + apply world_inv_set; [assumption|]. unfold slot_inv. cbn [cs_file cs_disk]. rewrite Hr.
+      assert (Hg : good_hdr (cf_hdr f)) by (split; [assumption | apply (file_inv_nodup hashf); assumption]).
+      destruct (close_trunc_ok (cf_rdonly f) (cf_hdr f) rest Hg) as [rest' Hr']. rewrite Hr'.
+      right. right. eauto.
+Qed.
+
+Lemma copy_att_pre_name : forall rd nvi vi nvo vo nm, copy_att_pre rd nvi vi nvo vo nm = NC_NOERR ->
+  name_pre nm = NC_NOERR.
+Proof. intros until nm. unfold copy_att_pre. intro H. pre_split H. Qed.
+
+Lemma s_copy_read_att : forall sf v nm a, hdr_ok (sf_hdr sf) -> s_copy_read nfc sf v nm = Some (inr a) ->
+  att_ok (h_format (sf_hdr sf)) a.
+Proof.
+  intros sf v nm a Hok H. unfold s_copy_read in H.
+  destruct (get_sa (sf_hdr sf) v) as [l|] eqn:G; [|discriminate].
+  destruct (find_name (nfc nm) (map a_name l)) as [i|] eqn:F; [|discriminate].
+  inversion H; subst a. destruct (find_name_att _ _ _ F) as (a & Ha & _ & Hd). rewrite Hd.
+  destruct (get_sa_ok _ _ _ Hok G) as [_ Hfa]. eapply Forall_nth_error; eauto.
+Qed.
+
+Lemma step_copy : forall w s v nm s2 v2, world_inv w ->
+  exists w' ob, c_copy_att hashf nfc w s v nm s2 v2 = Some (w', ob) /\
+                s_copy_att nfc (abs_world w) s v nm s2 v2 = (abs_world w', ob) /\ world_inv w'.
+Proof.
+  intros w s v nm s2 v2 Hw. unfold c_copy_att, s_copy_att. rewrite !slot_get_abs.
+  destruct (slot_get w s) as [sl1|] eqn:Hs1; simpl; [|eauto].
+  destruct (slot_get w s2) as [sl2|] eqn:Hs2; simpl; [|eauto].
+  pose proof (slot_get_inv _ _ _ Hw Hs1) as Hsl1. pose proof (slot_get_inv _ _ _ Hw Hs2) as Hsl2.
+  unfold slot_inv in Hsl1, Hsl2.
+  destruct (cs_file sl1) as [fin|] eqn:Hf1; simpl; [|eauto].
+  destruct (cs_file sl2) as [fout|] eqn:Hf2; simpl; [|eauto].
+  destruct Hsl1 as (Hfi1 & Hok1 & _). destruct Hsl2 as (Hfi2 & Hok2 & _).
+  rewrite !Zlen_map.
+  destruct (negb (copy_att_pre (cf_rdonly fout) (Zlen (cm_vars (cf_meta fin))) v
+                               (Zlen (cm_vars (cf_meta fout))) v2 nm =? NC_NOERR)) eqn:E; [eauto|].
+  apply negb_eqb_false in E. pose proof (copy_att_pre_name _ _ _ _ _ _ E) as En.
+  apply copy_att_pre_ok in E. destruct E as [Ev1 Ev2].
+  destruct (c_copy_read_ref hashf nfc hash_range fin v nm Hfi1 Ev1) as [Hr Hnn].
+  rewrite <- Hr. destruct (c_copy_read hashf nfc fin v nm) as [[rc|a]|] eqn:Hcr; [eauto| |congruence].
+  change (h_format (sf_hdr (abs_file fout))) with (cf_fmt fout).
+  destruct ((cf_fmt fout <? 5) && (a_type a >? 6)) eqn:Echk; [eauto|].
+  apply on_file_step; [assumption|].
+  intros sl f Hsl Hf Hfi Hok. rewrite Hs2 in Hsl. inversion Hsl; subst sl.
+  rewrite Hf2 in Hf. inversion Hf; subst f.
+  split; [apply c_copy_write_ref; assumption|]. split; [|apply s_copy_write_disc].
+  pose proof (s_copy_read_att (abs_file fin) v nm a Hok1 (eq_sym Hr)) as (A1 & A2 & A3 & A4).
+  apply (s_copy_write_ok nfc nfc_len); try assumption.
+  change (h_format (sf_hdr (abs_file fout))) with (cf_fmt fout).
+  change (h_format (sf_hdr (abs_file fin))) with (cf_fmt fin) in A2.
+  destruct Hok2 as (Hfv & _). change (h_format (cf_hdr fout)) with (cf_fmt fout) in Hfv.
+  apply fmt_valid_cases in Hfv. unfold valid_type in *.
+  destruct (cf_fmt fin =? 5); destruct (cf_fmt fout =? 5) eqn:E5; lia.
+Qed.
+
+(* ---------- meta_refines: one API call ---------- *)
+Theorem step_refines : forall w o, world_inv w -> op_repr o ->
+  exists w' ob, c_step hashf nfc w o = Some (w', ob) /\
+                s_step nfc (abs_world w) o = (abs_world w', ob) /\ world_inv w'.
+Proof.
+  intros w o Hw Hr. destruct o; cbn [c_step s_step]; cbn [op_repr] in Hr.
+  - apply step_create; [assumption | apply hcfg_of_pos; tauto].
+  - apply step_open; [assumption | apply hcfg_of_pos; tauto].
+  - apply step_close; assumption.
+  - apply on_file_step; [assumption|]. intros sl f _ _ Hfi Hok.
+    split; [apply c_enddef_ref; assumption|]. split; [apply s_enddef_ok; assumption | apply s_enddef_disc].
+  - apply on_file_step; [assumption|]. intros sl f _ _ Hfi Hok.
+    split; [apply c_redef_ref; assumption|]. split; [|apply s_redef_disc].
+    unfold s_redef. destruct (sf_rdonly (abs_file f)); [exact Hok|]. destruct (sf_indef (abs_file f)); exact Hok.
+  - apply on_file_step; [assumption|]. intros sl f _ _ Hfi Hok.
+    split; [apply c_def_dim_ref; assumption|]. split; [apply (s_def_dim_ok nfc nfc_len); assumption | apply s_def_dim_disc].
+  - apply on_file_step; [assumption|]. intros sl f _ _ Hfi Hok.
+    split; [apply c_def_var_ref; assumption|]. split; [apply (s_def_var_ok nfc nfc_len); assumption | apply s_def_var_disc].
+  - apply on_file_step; [assumption|]. intros sl f _ _ Hfi Hok.
+    split; [apply c_put_att_ref; assumption|]. split; [apply (s_put_att_ok nfc nfc_len); assumption | apply s_put_att_disc].
+  - apply on_file_step; [assumption|]. intros sl f _ _ Hfi Hok.
+    split; [apply c_get_att_ref; assumption|]. split; [|].
+    + unfold s_get_att. destruct (negb _); [exact Hok|]. destruct (get_sa _ _); [|exact Hok].
+      destruct (find_name _ _); exact Hok.
+    + unfold s_get_att. destruct (negb _); [apply sdisc_same|]. destruct (get_sa _ _); [|apply sdisc_same].
+      destruct (find_name _ _); apply sdisc_same.
+  - apply on_file_step; [assumption|]. intros sl f _ _ Hfi Hok.
+    split; [apply c_del_att_ref; assumption|]. split; [apply s_del_att_ok; assumption | apply s_del_att_disc].
+  - apply on_file_step; [assumption|]. intros sl f _ _ Hfi Hok.
+    split; [apply c_rename_dim_ref; assumption|]. split; [apply (s_rename_dim_ok nfc nfc_len); assumption | apply s_rename_dim_disc].
+  - apply on_file_step; [assumption|]. intros sl f _ _ Hfi Hok.
+    split; [apply c_rename_var_ref; assumption|]. split; [apply (s_rename_var_ok nfc nfc_len); assumption | apply s_rename_var_disc].
+  - apply on_file_step; [assumption|]. intros sl f _ _ Hfi Hok.
+    split; [apply c_rename_att_ref; assumption|]. split; [apply (s_rename_att_ok nfc nfc_len); assumption | apply s_rename_att_disc].
+  - apply step_copy; assumption.
+  - apply on_file_step; [assumption|]. intros sl f _ _ Hfi Hok.
+    split; [apply c_inq_ref; assumption|]. split; [exact Hok | apply sdisc_same].
+  - apply on_file_step; [assumption|]. intros sl f _ _ Hfi Hok.
+    split; [apply c_inq_dimid_ref; assumption|]. split.
+    + unfold s_inq_dimid. destruct (negb _); [exact Hok|]. destruct (find_name _ _); exact Hok.
+    + unfold s_inq_dimid. destruct (negb _); [apply sdisc_same|]. destruct (find_name _ _); apply sdisc_same.
+  - apply on_file_step; [assumption|]. intros sl f _ _ Hfi Hok.
+    split; [apply c_inq_varid_ref; assumption|]. split.
+    + unfold s_inq_varid. destruct (negb _); [exact Hok|]. destruct (find_name _ _); exact Hok.
+    + unfold s_inq_varid. destruct (negb _); [apply sdisc_same|]. destruct (find_name _ _); apply sdisc_same.
+  - apply on_file_step; [assumption|]. intros sl f _ _ Hfi Hok.
+    split; [apply c_inq_attid_ref; assumption|]. split.
+    + unfold s_inq_attid. destruct (negb _); [exact Hok|]. destruct (get_sa _ _); [|exact Hok].
+      destruct (find_name _ _); exact Hok.
+    + unfold s_inq_attid. destruct (negb _); [apply sdisc_same|]. destruct (get_sa _ _); [|apply sdisc_same].
+      destruct (find_name _ _); apply sdisc_same.
+  - rewrite slot_get_abs. destruct (slot_get w s) as [sl|]; simpl; eauto.
+Qed.
+
+(* ---------- meta_refines for whole histories => inq_matches_model ---------- *)
+Theorem run_refines : forall ops w, world_inv w -> Forall op_repr ops ->
+  exists w' obs, c_run hashf nfc w ops = Some (w', obs) /\
+                 s_run nfc (abs_world w) ops = (abs_world w', obs) /\ world_inv w'.
+Proof.
+  induction ops as [|o ops IH]; intros w Hw Hr; simpl.
+  - exists w, []. auto.
+  - inversion Hr; subst.
+    destruct (step_refines w o Hw H1) as (w1 & ob & Hc & Hs & Hw1). rewrite Hc, Hs.
+    destruct (IH w1 Hw1 H2) as (w2 & obs & Hc2 & Hs2 & Hw2). rewrite Hc2, Hs2.
+    exists w2, (ob :: obs). auto.
+Qed.
+
+Lemma world0_inv : forall n, world_inv (cworld0 n).
+Proof.
+  intro n. unfold world_inv, cworld0. apply Forall_forall. intros sl Hin.
+  apply repeat_spec in Hin. subst. unfold slot_inv. simpl. left. reflexivity.
+Qed.
+
+Lemma abs_world0 : forall n, abs_world (cworld0 n) = sworld0 n.
+Proof. intro n. unfold abs_world, cworld0, sworld0. induction n; simpl; [reflexivity|]. f_equal. assumption. Qed.
+
+(* every observation (return codes, ids, inquiry dumps, lookups, file snapshots) of every history run on
+   the hash-table implementation equals the observation of the linear reference model; no step is
+   undefined behaviour *)
+Theorem inq_matches_model : forall n ops, Forall op_repr ops ->
+  exists w', c_run hashf nfc (cworld0 n) ops = Some (w', snd (s_run nfc (sworld0 n) ops)) /\ world_inv w'.
+Proof.
+  intros n ops Hr. destruct (run_refines ops (cworld0 n) (world0_inv n) Hr) as (w' & obs & Hc & Hs & Hw).
+  rewrite abs_world0 in Hs. rewrite Hs. simpl. eauto.
+Qed.
+
+(* ---------- reachable states satisfy table_inv ---------- *)
+Theorem table_inv_reachable : forall n ops w' obs s sl f, Forall op_repr ops ->
+  c_run hashf nfc (cworld0 n) ops = Some (w', obs) ->
+  slot_get w' s = Some sl -> cs_file sl = Some f -> finv f.
+Proof.
+  intros n ops w' obs s sl f Hr Hc Hs Hf.
+  destruct (run_refines ops (cworld0 n) (world0_inv n) Hr) as (w2 & obs2 & Hc2 & _ & Hw).
+  rewrite Hc in Hc2. inversion Hc2; subst.
+  pose proof (slot_get_inv _ _ _ Hw Hs) as H. unfold slot_inv in H. rewrite Hf in H. tauto.
+Qed.
+
+(* ---------- name_id_agree ---------- *)
+Lemma find_name_iff : forall names nm i, NoDup names ->
+  (find_name nm names = Some i <-> nth_error names i = Some nm).
+Proof.
+  intros names nm i Hnd. split; intro H.
+  - apply find_name_some in H. tauto.
+  - apply find_name_unique; assumption.
+Qed.
+
+Theorem name_id_agree : forall f, finv f ->
+  let m := cf_meta f in
+  (forall i nm, hfind hashf (dnames m) (cm_dtab m) nm = Some (Some i) <-> nth_error (dnames m) i = Some nm) /\
+  (forall i nm, hfind hashf (vnames m) (cm_vtab m) nm = Some (Some i) <-> nth_error (vnames m) i = Some nm) /\
+  (forall v ca i nm, get_ca m v = Some ca ->
+     (ca_find hashf ca nm = Some (Some i) <-> nth_error (ca_names ca) i = Some nm)).
+Proof.
+  intros f (Hhs & Hm & _). pose proof Hm as (Hd & Hdn & Hv & Hvn & Hg & Hvs). cbv zeta.
+  split; [|split].
+  - intros i nm. rewrite (hfind_linear hashf hash_range _ _ nm Hd Hdn), <- find_name_iff by assumption.
+    split; intro H; [inversion H; reflexivity | rewrite H; reflexivity].
+  - intros i nm. rewrite (hfind_linear hashf hash_range _ _ nm Hv Hvn), <- find_name_iff by assumption.
+    split; intro H; [inversion H; reflexivity | rewrite H; reflexivity].
+  - intros v ca i nm Hca. pose proof (get_ca_inv hashf _ _ _ _ Hm Hca) as Hci.
+    rewrite (ca_find_linear hashf hash_range ca nm Hci). destruct Hci as [_ Hnd].
+    unfold ca_names. rewrite <- find_name_iff by assumption.
+    split; intro H; [inversion H; reflexivity | rewrite H; reflexivity].
+Qed.
+
+(* ---------- datamode_update_in_file (as an invariant of every reachable world) ---------- *)
+Theorem datamode_update_in_file : forall n ops w' obs s sl f, Forall op_repr ops ->
+  c_run hashf nfc (cworld0 n) ops = Some (w', obs) ->
+  slot_get w' s = Some sl -> cs_file sl = Some f -> cf_indef f = false ->
+  exists rest, cs_disk sl = Some (encode_header (cf_hdr f) ++ rest) /\
+               hdr_len (cf_hdr f) = Zlen (encode_header (cf_hdr f)).
+Proof.
+  intros n ops w' obs s sl f Hr Hc Hs Hf Hin.
+  destruct (run_refines ops (cworld0 n) (world0_inv n) Hr) as (w2 & obs2 & Hc2 & _ & Hw).
+  rewrite Hc in Hc2. inversion Hc2; subst.
+  pose proof (slot_get_inv _ _ _ Hw Hs) as H. unfold slot_inv in H. rewrite Hf, Hin in H.
+  destruct H as (_ & Hok & rest & Hd). exists rest. split; [assumption|].
+  apply hdr_len_encode, hdr_ok_wf. assumption.
+Qed.
+
+(* ---------- persistence: close, then open, gives the same header ---------- *)
+Lemma norm_cf_hdr : forall f, norm_hdr (cf_hdr f) = cf_hdr f.
+Proof.
+  intro f. unfold norm_hdr, cf_hdr, abs_hdr. simpl. f_equal. rewrite map_map.
+  apply map_ext. intro v. reflexivity.
+Qed.
+
+Lemma slot_get_set_same : forall A (w : list A) s sl x, slot_get w s = Some sl ->
+  slot_get (set_nth (Z.to_nat s) w x) s = Some x.
+Proof.
+  intros A w s sl x H. unfold slot_get in *. destruct (s <? 0); [discriminate|].
+  apply nth_error_set_nth_eq. eapply nth_error_some_lt; eauto.
+Qed.
+
+Theorem persistence : forall w s sl f mode hd hv hg ha bl,
+  hint_ok hd -> hint_ok hv -> hint_ok hg -> hint_ok ha ->
+  world_inv w -> slot_get w s = Some sl -> cs_file sl = Some f -> cf_indef f = false ->
+  exists w1 w2 sl2 f2,
+    c_step hashf nfc w (OClose s bl) = Some (w1, [NC_NOERR]) /\
+    c_step hashf nfc w1 (OOpen s mode hd hv hg ha) = Some (w2, [NC_NOERR]) /\
+    slot_get w2 s = Some sl2 /\ cs_file sl2 = Some f2 /\ cf_hdr f2 = cf_hdr f /\ finv f2.
+Proof.
+  intros w s sl f mode hd hv hg ha bl Hh1 Hh2 Hh3 Hh4 Hw Hs Hf Hin.
+  pose proof (slot_get_inv _ _ _ Hw Hs) as Hsl. unfold slot_inv in Hsl. rewrite Hf, Hin in Hsl.
+  destruct Hsl as (Hfi & Hok & rest & Hd).
+  assert (Hg : good_hdr (cf_hdr f)) by (split; [assumption | apply (file_inv_nodup hashf); assumption]).
+  destruct (close_trunc_ok (cf_rdonly f) (cf_hdr f) rest Hg) as [rest' Hr'].
+  set (sl1 := mkcslot (Some (encode_header (cf_hdr f) ++ rest')) None).
+  exists (set_nth (Z.to_nat s) w sl1).
+  assert (Hs1 : slot_get (set_nth (Z.to_nat s) w sl1) s = Some sl1) by (eapply slot_get_set_same; eauto).
+  destruct (decode_good (cf_hdr f) rest' Hg) as (dc & Hdec & Hdc).
+  destruct Hg as [_ Hnd].
+  destruct (c_open_file_ok hashf hash_range (norm_hdr (cf_hdr f)) (mode =? 0) (hcfg_of hd hv hg ha)
+              (hcfg_of_pos _ _ _ _ Hh1 Hh2 Hh3 Hh4) (hdr_nodup_norm _ Hnd)) as (f2 & Ho & Hfi2 & Habs).
+  exists (set_nth (Z.to_nat s) (set_nth (Z.to_nat s) w sl1)
+                  (mkcslot (Some (encode_header (cf_hdr f) ++ rest')) (Some f2))).
+  eexists _, f2. split.
+  { cbn [c_step]. unfold c_close. rewrite Hs, Hf, Hin, Hd, Hr'. reflexivity. }
+  split.
+  { cbn [c_step]. unfold c_open. rewrite Hs1. unfold sl1. cbn [cs_file cs_disk].
+    rewrite Hdec, Hdc, Ho. reflexivity. }
+  split; [eapply slot_get_set_same; eauto|].
+  split; [reflexivity|]. split; [|assumption].
+  change (cf_hdr f2) with (sf_hdr (abs_file f2)). rewrite Habs. simpl. rewrite !norm_cf_hdr. reflexivity.
+Qed.
+
+End Histories.
+
+(* ================================================================== *)
+(** * Part 5: the instance that is run (Bernstein hash), satisfiability examples, refuted variants *)
+
+Lemma land_le : forall a b, 0 <= b -> Z.land a b <= b.
+Proof.
+  intros a b Hb.
+  assert (H : Z.land a b + Z.land (Z.lnot a) b = b).
+  { rewrite Z.add_nocarry_lxor.
+    - apply Z.bits_inj'. intros n Hn. rewrite Z.lxor_spec, !Z.land_spec, Z.lnot_spec by assumption.
+      destruct (Z.testbit a n), (Z.testbit b n); reflexivity.
+    - apply Z.bits_inj'. intros n Hn. rewrite !Z.land_spec, Z.lnot_spec, Z.bits_0 by assumption.
+      destruct (Z.testbit a n), (Z.testbit b n); reflexivity. }
+  assert (0 <= Z.land (Z.lnot a) b) by (apply Z.land_nonneg; auto).
+  lia.
+Qed.
+
+(* the hash function in use has its range below every positive table size: key = x & (hsize-1) *)
+Theorem bernstein_range : forall nm hs, hs_ok hs -> 0 <= bernstein nm hs < hs.
+Proof.
+  intros nm hs [H1 H2]. unfold bernstein, NC_MAX_INT in *.
+  set (X := Z.lxor (Z.lxor _ _) _).
+  assert (Hm : u32 (hs - 1) = hs - 1) by (unfold u32; apply Z.mod_small; lia).
+  rewrite Hm.
+  assert (Hle : Z.land X (hs - 1) <= hs - 1) by (apply land_le; lia).
+  assert (Hge : 0 <= Z.land X (hs - 1)) by (apply Z.land_nonneg; right; lia).
+  unfold s32, u32. rewrite Z.mod_small by lia.
+  destruct (Z.land X (hs - 1) <? 2147483648) eqn:E; lia.
+Qed.
+
+(* before repair c39b68a0 a size of 0 was accepted: then the key is the full 32-bit hash as an int, outside
+   the (empty) table: the first insertion is an out-of-bounds access *)
+Lemma hint_size_old_refuted :
+  hint_size_old (Some 0) PNC_HSIZE_DIM = 0 /\
+  c_def_dim bernstein nfc_tab (c_create_file 1 (mkhcfg (hint_size_old (Some 0) PNC_HSIZE_DIM) 256 64 8)) [120] 5 = None.
+Proof. split; vm_compute; reflexivity. Qed.
+
+Lemma hint_size_repaired : forall v d, hs_ok d -> v <= NC_MAX_INT -> hs_ok (hint_size (Some v) d).
+Proof. intros. apply hint_size_pos; simpl; assumption. Qed.
+
+(* lookup_hash_eq_linear needs distinct names: with duplicates (only possible in a file not written by this
+   library) a rename reorders a bucket and the bucket lookup no longer returns the first match *)
+Definition lookup_hash_eq_linear_full : Prop :=
+  forall hashf names t nm, (forall n hs, hs_ok hs -> 0 <= hashf n hs < hs) ->
+    tab_inv hashf names t -> hfind hashf names t nm = Some (find_name nm names).
+
+Lemma lookup_hash_eq_linear_refuted : ~ lookup_hash_eq_linear_full.
+Proof.
+  intro H.
+  specialize (H (fun _ _ => 0) [[98]; [97]; [98]] (mkntab 1 (Some [[1%nat; 2%nat; 0%nat]])) [98]).
+  assert (Hr : forall (n : list byte) hs, hs_ok hs -> 0 <= (fun (_ : list byte) (_ : Z) => 0) n hs < hs)
+    by (intros n hs [A B]; lia).
+  specialize (H Hr). vm_compute in H.
+  assert (Hinv : tab_inv (fun _ _ => 0) [[98]; [97]; [98]] (mkntab 1 (Some [[1%nat; 2%nat; 0%nat]]))).
+  { split; [unfold hs_ok, NC_MAX_INT; simpl; lia|]. simpl. split; [reflexivity|].
+    intros k ids Hk. destruct k as [|k]; simpl in Hk; [|destruct k; discriminate].
+    inversion Hk; subst ids. split.
+    - repeat constructor; simpl; intuition lia.
+    - intro i. unfold key. simpl. split.
+      + intros [Hi|[Hi|[Hi|[]]]]; subst i; simpl; eauto.
+      + intros (n & Hn & _). destruct i as [|[|[|i]]]; simpl in *; try discriminate; auto.
+        destruct i; discriminate. }
+  specialize (H Hinv). discriminate.
+Qed.
+
+(* ---------- the hypotheses are satisfiable: a non-trivial reachable world ---------- *)
+Definition ex_ops : list op :=
+  [OCreate 0 1 (Some 2) None (Some 1) None;
+   ODefDim 0 [120] 5; ODefDim 0 [121] 0; ODefVar 0 [118] 4 [1; 0];
+   OPutAtt 0 (-1) [97] 4 [7; 8]; OPutAtt 0 0 [98] 2 [65; 66]; ORenameDim 0 0 [122];
+   OEnddef 0 [200]; ORenameAtt 0 (-1) [97] [99]; OInq 0; OClose 0 []; OOpen 0 0 None None None None;
+   OInqDimid 0 [122]; OInq 0].
+
+Example ex_ops_repr : Forall op_repr ex_ops.
+Proof.
+  unfold ex_ops.
+  repeat (apply Forall_cons;
+          [cbn [op_repr hint_ok]; unfold NC_MAX_INT, NC_MAX_INT64, Zlen; simpl;
+           repeat match goal with |- _ /\ _ => split end; try lia; try exact I;
+           repeat (first [apply Forall_nil | apply Forall_cons; [lia|]]) |]).
+  apply Forall_nil.
+Qed.
+
+Example ex_run_defined :
+  exists w obs, c_run bernstein nfc_tab (cworld0 1) ex_ops = Some (w, obs) /\
+                snd (s_run nfc_tab (sworld0 1) ex_ops) = obs /\
+                nth 12 obs [] = [NC_NOERR; 0].
+Proof. eexists _, _. split; [vm_compute; reflexivity|]. split; vm_compute; reflexivity. Qed.
+
+Example identity_nfc_len : forall nm, Zlen nm <= NC_MAX_NAME -> Zlen ((fun x : list byte => x) nm) <= NC_MAX_INT.
+Proof. intros nm H. unfold NC_MAX_NAME, NC_MAX_INT in *. lia. Qed.
+
+(* ---------- the NFC table used when the model is run satisfies the assumption on the oracle ---------- *)
+Lemma is_prefix_len : forall p l, is_prefix p l = true -> (length p <= length l)%nat.
+Proof.
+  induction p as [|x p IH]; intros l H; simpl; [lia|].
+  destruct l as [|y l]; simpl in H; [discriminate|].
+  apply andb_true_iff in H. destruct H as [_ H]. apply IH in H. simpl. lia.
+Qed.
+
+Lemma nfc_pairs_shrink : forall k v, In (k, v) nfc_pairs -> (length v <= length k)%nat /\ (0 < length k)%nat.
+Proof.
+  intros k v H. unfold nfc_pairs in H. simpl in H.
+  repeat (destruct H as [H|H]; [inversion H; subst; simpl; lia|]). contradiction.
+Qed.
+
+Lemma nfc_tab_f_len : forall fuel l, (length (nfc_tab_f fuel l) <= length l)%nat.
+Proof.
+  induction fuel as [|fuel IH]; intro l; [simpl; lia|].
+  destruct l as [|c r]; [simpl; lia|]. cbn [nfc_tab_f].
+  destruct (find (fun p => is_prefix (fst p) (c :: r)) nfc_pairs) as [[k v]|] eqn:F.
+  - apply find_some in F. destruct F as [Hin Hp]. simpl in Hp.
+    destruct (nfc_pairs_shrink k v Hin) as [Hs Hk]. apply is_prefix_len in Hp.
+    rewrite app_length. specialize (IH (skipn (length k) (c :: r))). rewrite skipn_length in IH. lia.
+  - simpl. specialize (IH r). lia.
+Qed.
+
+Theorem nfc_tab_len : forall nm, Zlen nm <= NC_MAX_NAME -> Zlen (nfc_tab nm) <= NC_MAX_INT.
+Proof.
+  intros nm H. unfold nfc_tab, Zlen in *. pose proof (nfc_tab_f_len (length nm) nm).
+  unfold NC_MAX_NAME, NC_MAX_INT in *. lia.
+Qed.
+
+(* ---------- the theorems for the very model that is run against the library ---------- *)
+Theorem inq_matches_model_instance : forall n ops, Forall op_repr ops ->
+  exists w', c_run bernstein nfc_tab (cworld0 n) ops = Some (w', snd (s_run nfc_tab (sworld0 n) ops)) /\
+             world_inv bernstein w'.
+Proof. intros. apply (inq_matches_model bernstein nfc_tab bernstein_range nfc_tab_len). assumption. Qed.
+
+(* ================================================================== *)
+(** * Part 6: a data-mode update never makes the header longer *)
+Ltac Zify.zify_post_hook ::= Z.div_mod_to_equations.
+
+Lemma rndup4_mono : forall a b, a <= b -> rndup a 4 <= rndup b 4.
+Proof. intros a b H. unfold rndup. simpl. lia. Qed.
+
+Lemma zsum_map_set_nth : forall A (g : A -> Z) l i a x, nth_error l i = Some a ->
+  zsum (map g (set_nth i l x)) = zsum (map g l) - g a + g x.
+Proof.
+  induction l as [|y l IH]; intros i a x H; destruct i; simpl in *; try discriminate.
+  - inversion H; subst. lia.
+  - rewrite (IH i a x H). lia.
+Qed.
+
+Lemma x_len_is_rndup : forall t n, 1 <= t <= 11 -> 0 <= n ->
+  x_len_attrV t n = rndup (n * xlen_type t) 4.
+Proof.
+  intros t n Ht Hn.
+  assert (Hc : t = 1 \/ t = 2 \/ t = 3 \/ t = 4 \/ t = 5 \/ t = 6 \/ t = 7 \/ t = 8 \/ t = 9 \/ t = 10 \/ t = 11) by lia.
+  unfold x_len_attrV, xlen_type, rndup.
+  repeat (destruct Hc as [Hc|Hc]; [subst t; simpl; lia|]). subst t. simpl. lia.
+Qed.
+
+Lemma valid_type_range' : forall fmt t, valid_type fmt t = true -> 1 <= t <= 11.
+Proof. intros fmt t H. unfold valid_type in H. destruct (fmt =? 5); lia. Qed.
+
+Section NoGrowth.
+Variable nfc : list byte -> list byte.
+
+Lemma s_attr_put_nogrow : forall fmt l nn t n data, Forall (att_ok fmt) l ->
+  valid_type fmt t = true -> 0 <= n ->
+  zsum (map (len_att fmt) (fst (s_attr_put false l nn t n data))) <= zsum (map (len_att fmt) l).
+Proof.
+  intros fmt l nn t n data Hf Ht Hn. unfold s_attr_put.
+  destruct (find_name nn (map a_name l)) as [i|] eqn:F; simpl; [|lia].
+  destruct (find_name_att _ _ _ F) as (a & Ha & Hna & Hda). rewrite Hda.
+  destruct (x_len_attrV t n >? att_xsz a) eqn:E; simpl; [lia|].
+  rewrite (zsum_map_set_nth _ (len_att fmt) l i a _ Ha).
+  destruct (Forall_nth_error _ _ _ _ _ Hf Ha) as (_ & Hta & Hna' & _).
+  unfold att_xsz in E.
+  rewrite (x_len_is_rndup t n (valid_type_range' _ _ Ht) Hn) in E.
+  rewrite (x_len_is_rndup _ _ (valid_type_range' _ _ Hta) (proj1 Hna')) in E.
+  unfold len_att. simpl. lia.
+Qed.
+
+Lemma s_attr_rename_nogrow : forall fmt l nn nnew,
+  zsum (map (len_att fmt) (fst (s_attr_rename false l nn nnew))) <= zsum (map (len_att fmt) l).
+Proof.
+  intros fmt l nn nnew. unfold s_attr_rename.
+  destruct (find_name nn (map a_name l)) as [i|] eqn:F; simpl; [|lia].
+  destruct (find_name nnew (map a_name l)); simpl; [lia|].
+  destruct (find_name_att _ _ _ F) as (a & Ha & Hna & Hda). rewrite Hda.
+  destruct (Zlen (a_name a) <? Zlen nnew) eqn:E; simpl; [lia|].
+  rewrite (zsum_map_set_nth _ (len_att fmt) l i a _ Ha).
+  unfold len_att. simpl. pose proof (rndup4_mono (Zlen nnew) (Zlen (a_name a))). lia.
+Qed.
+
+Lemma set_sa_nogrow : forall h v l0 l, get_sa h v = Some l0 ->
+  zsum (map (len_att (h_format h)) l) <= zsum (map (len_att (h_format h)) l0) ->
+  hdr_len (set_sa h v l) <= hdr_len h.
+Proof.
+  intros h v l0 l G Hle. unfold get_sa in G. unfold set_sa.
+  destruct (v =? -1).
+  { inversion G; subst. unfold hdr_len, len_attarray. simpl. lia. }
+  destruct ((0 <=? v) && (v <? Zlen (h_vars h))); [|discriminate].
+  destruct (nth_error (h_vars h) (Z.to_nat v)) as [x|] eqn:E; [|discriminate].
+  simpl in G. inversion G; subst l0.
+  rewrite (nth_error_nth_d _ _ _ _ dflt_var E).
+  unfold hdr_len. simpl. rewrite (zsum_map_set_nth _ _ _ _ x _ E).
+  unfold len_var, len_attarray. simpl. lia.
+Qed.
+
+(* datamode_update_in_file, second half: in data mode no operation makes the header longer, so the rewritten
+   header stays within the space it had (names may only shrink, attribute values may only shrink) *)
+Theorem datamode_no_growth : forall f, sf_indef f = false -> hdr_ok (sf_hdr f) ->
+  (forall v nm t vals, hdr_len (sf_hdr (fst (fst (s_put_att nfc f v nm t vals)))) <= hdr_len (sf_hdr f)) /\
+  (forall v nm nnm, hdr_len (sf_hdr (fst (fst (s_rename_att nfc f v nm nnm)))) <= hdr_len (sf_hdr f)) /\
+  (forall id nm, hdr_len (sf_hdr (fst (fst (s_rename_dim nfc f id nm)))) <= hdr_len (sf_hdr f)) /\
+  (forall id nm, hdr_len (sf_hdr (fst (fst (s_rename_var nfc f id nm)))) <= hdr_len (sf_hdr f)) /\
+  (forall v nm a self, valid_type (h_format (sf_hdr f)) (a_type a) = true -> 0 <= a_nelems a ->
+     hdr_len (sf_hdr (fst (fst (s_copy_write nfc f v nm a self)))) <= hdr_len (sf_hdr f)).
+Proof.
+  intros f Hin Hok. repeat split.
+  - intros v nm t vals. unfold s_put_att.
+    destruct (negb (put_att_pre _ _ _ v nm t _ =? NC_NOERR)) eqn:E; [simpl; lia|].
+    pose proof Hok as (Hf & _).
+    apply negb_eqb_false, (put_att_pre_type _ _ _ _ _ _ _ Hf) in E. destruct E as (_ & E2 & E3).
+    destruct (negb (fillvalue_rule _ _ _ _ _ _ =? NC_NOERR)); [simpl; lia|].
+    destruct (get_sa (sf_hdr f) v) as [l|] eqn:G; [|simpl; lia].
+    destruct (att_put_value t vals) as [data ce].
+    destruct (get_sa_ok _ _ _ Hok G) as [_ Hfa].
+    pose proof (s_attr_put_nogrow (h_format (sf_hdr f)) l (nfc nm) t (Zlen vals) data Hfa E2 E3) as Hng.
+    rewrite Hin. destruct (s_attr_put false l (nfc nm) t (Zlen vals) data) as [l' rc]. simpl in Hng.
+    destruct (negb (rc =? NC_NOERR)); simpl; [lia|]. eapply set_sa_nogrow; eauto.
+  - intros v nm nnm. unfold s_rename_att.
+    destruct (negb (rename_att_pre _ _ _ nm nnm =? NC_NOERR)); [simpl; lia|].
+    destruct (get_sa (sf_hdr f) v) as [l|] eqn:G; [|simpl; lia].
+    pose proof (s_attr_rename_nogrow (h_format (sf_hdr f)) l (nfc nm) (nfc nnm)) as Hng.
+    rewrite Hin. destruct (s_attr_rename false l (nfc nm) (nfc nnm)) as [l' rc]. simpl in Hng.
+    destruct (negb (rc =? NC_NOERR)); simpl; [lia|]. eapply set_sa_nogrow; eauto.
+  - intros id nm. unfold s_rename_dim.
+    destruct (negb (rename_dim_pre _ _ id nm =? NC_NOERR)) eqn:E; [simpl; lia|].
+    apply negb_eqb_false, rename_dim_pre_ok in E.
+    destruct (find_name _ _) as [j|]. { destruct (Nat.eqb j (Z.to_nat id)); simpl; lia. }
+    destruct (nth_error_lt_some _ (h_dims (sf_hdr f)) (Z.to_nat id)) as [old Hold]; [apply nat_lt_Zlen; lia|].
+    rewrite (nth_error_nth_d _ _ _ _ dflt_dim Hold). rewrite Hin. simpl.
+    destruct (Zlen (d_name old) <? Zlen (nfc nm)) eqn:E2; simpl; [lia|].
+    unfold hdr_len. simpl. rewrite (zsum_map_set_nth _ _ _ _ old _ Hold).
+    unfold len_dim. simpl. pose proof (rndup4_mono (Zlen (nfc nm)) (Zlen (d_name old))). lia.
+  - intros id nm. unfold s_rename_var.
+    destruct (negb (rename_var_pre _ _ id nm =? NC_NOERR)) eqn:E; [simpl; lia|].
+    apply negb_eqb_false, rename_var_pre_ok in E.
+    destruct (find_name _ _) as [j|]; [simpl; lia|].
+    destruct (nth_error_lt_some _ (h_vars (sf_hdr f)) (Z.to_nat id)) as [old Hold]; [apply nat_lt_Zlen; lia|].
+    rewrite (nth_error_nth_d _ _ _ _ dflt_var Hold). rewrite Hin. simpl.
+    destruct (Zlen (v_name old) <? Zlen (nfc nm)) eqn:E2; simpl; [lia|].
+    unfold hdr_len. simpl. rewrite (zsum_map_set_nth _ _ _ _ old _ Hold).
+    unfold len_var. simpl. pose proof (rndup4_mono (Zlen (nfc nm)) (Zlen (v_name old))). lia.
+  - intros v nm a self Ht Hn. unfold s_copy_write.
+    destruct (get_sa (sf_hdr f) v) as [l|] eqn:G; [|simpl; lia].
+    destruct self; [simpl; lia|].
+    destruct (get_sa_ok _ _ _ Hok G) as [_ Hfa].
+    pose proof (s_attr_put_nogrow (h_format (sf_hdr f)) l (nfc nm) (a_type a) (a_nelems a) (a_data a) Hfa Ht Hn) as Hng.
+    rewrite Hin. destruct (s_attr_put false l (nfc nm) (a_type a) (a_nelems a) (a_data a)) as [l' rc]. simpl in Hng.
+    destruct (negb (rc =? NC_NOERR)); simpl; [lia|]. eapply set_sa_nogrow; eauto.
+Qed.
+
+End NoGrowth.
